@@ -245,20 +245,29 @@ def dispCall (r : Nat) (s : State) : Bool × State :=
 
 /-! ## `ExchangeMove` -/
 
+/-- the atoms a new particle is made of: `self.to_add_atoms or context.exchange_atoms` -/
+def toAddOf (m : MoveObj) (c : Ctx) : List Row :=
+  match m.toAdd with
+  | some rows => if rows.isEmpty then c.template else rows
+  | none => c.template
+
+/-- indices of `k` rows appended to `n` existing ones: `np.arange(len(atoms))[-k:]` -/
+def addMoving (new : List Row) (n : Nat) : List Nat := (List.range new.length).map (· + n)
+
+/-- state after `atoms.extend(to_add_atoms)` and `context._moving_indices = …` -/
+def addStart (r : Nat) (s : State) : State :=
+  let new := toAddOf (s.obj r) s.ctx
+  { (s.setObj r { s.obj r with toAdd := some new }) with
+      atoms := s.atoms.extend new,
+      ctx := { s.ctx with moving := addMoving new s.atoms.rows.length } }
+
 /-- `attempt_addition`: returns the indices of the added rows (`[]` on failure, atoms restored) -/
 def attemptAddition (r : Nat) (s : State) : List Nat × State :=
-  let m := s.obj r
-  let toAdd := match m.toAdd with
-    | some rows => if rows.isEmpty then s.ctx.template else rows    -- `self.to_add_atoms or context.exchange_atoms`
-    | none => s.ctx.template
-  let m1 := { m with toAdd := some toAdd }
-  let n := s.atoms.rows.length
-  let a1 := s.atoms.extend toAdd
-  let moving := (List.range toAdd.length).map (· + n)
-  let s1 := { (s.setObj r m1) with atoms := a1, ctx := { s.ctx with moving := moving } }
-  let (ok, s2) := attemptDisplacement m1 s1
-  if ok then (moving, s2)
-  else ([], { s2 with atoms := s2.atoms.delete moving })
+  let new := toAddOf (s.obj r) s.ctx
+  let moving := addMoving new s.atoms.rows.length
+  let res := attemptDisplacement { s.obj r with toAdd := some new } (addStart r s)
+  if res.1 then (moving, res.2)
+  else ([], { res.2 with atoms := res.2.atoms.delete moving })
 
 /-- `attempt_deletion`: the indices to delete (`[]` when no candidate) -/
 def attemptDeletion (r : Nat) (s : State) : List Nat × State :=
@@ -285,30 +294,36 @@ def saveFixed (c : Ctx) (a : AtomsS) : Ctx :=
 def clearExch (s : State) (r : Nat) : State :=
   s.setObj r { s.obj r with toAdd := none, toDelete := none }
 
+/-- `context._added_indices = hstack(...)`, `context._added_atoms += atoms[indices]`, `particle_delta += 1` -/
+def recordAdded (c : Ctx) (idx : List Nat) (rows : List Row) : Ctx :=
+  { c with addedIdx := c.addedIdx ++ idx, addedAtoms := c.addedAtoms ++ pick rows idx, delta := c.delta + 1 }
+
+/-- the same for a deletion (`save_constraints()` first), before `del atoms[indices]` -/
+def recordDeleted (c : Ctx) (a : AtomsS) (idx : List Nat) : Ctx :=
+  let c1 := saveFixed c a
+  { c1 with deletedIdx := c1.deletedIdx ++ idx, deletedAtoms := c1.deletedAtoms ++ pick a.rows idx, delta := c1.delta - 1 }
+
+/-- insertion or deletion? a pre-selection decides, else one draw against `bias_towards_insert` -/
+def exchDecide (r : Nat) (s : State) : Bool × State :=
+  let m := s.obj r
+  match m.toAdd, m.toDelete with
+  | none, none => (decide (s.inp.draw.1 < m.bias), { s with inp := s.inp.draw.2 })
+  | ta, _ => ((ta.map (fun rows => !rows.isEmpty)).getD false, s)
+
+def exchAdd (r : Nat) (s0 : State) : Bool × State :=
+  let (idx, s1) := attemptAddition r s0
+  if idx.isEmpty then (false, clearExch s1 r)
+  else (true, clearExch { s1 with ctx := recordAdded s1.ctx idx s1.atoms.rows } r)
+
+def exchDel (r : Nat) (s0 : State) : Bool × State :=
+  let (idx, s1) := attemptDeletion r s0
+  if idx.isEmpty then (false, clearExch s1 r)
+  else (true, clearExch { s1 with ctx := recordDeleted s1.ctx s1.atoms idx, atoms := s1.atoms.delete idx } r)
+
 /-- `ExchangeMove.__call__` -/
 def exchCall (r : Nat) (s : State) : Bool × State :=
-  let m := s.obj r
-  let (isAdd, s0) : Bool × State :=
-    match m.toAdd, m.toDelete with
-    | none, none => let (d, i) := s.inp.draw; (decide (d < m.bias), { s with inp := i })
-    | ta, _ => ((ta.map (fun rows => !rows.isEmpty)).getD false, s)
-  if isAdd then
-    let (idx, s1) := attemptAddition r s0
-    if idx.isEmpty then (false, clearExch s1 r)
-    else
-      let c := s1.ctx
-      (true, clearExch { s1 with ctx := { c with addedIdx := c.addedIdx ++ idx,
-                                                 addedAtoms := c.addedAtoms ++ pick s1.atoms.rows idx,
-                                                 delta := c.delta + 1 } } r)
-  else
-    let (idx, s1) := attemptDeletion r s0
-    if idx.isEmpty then (false, clearExch s1 r)
-    else
-      let c := saveFixed s1.ctx s1.atoms
-      (true, clearExch { s1 with ctx := { c with deletedIdx := c.deletedIdx ++ idx,
-                                                 deletedAtoms := c.deletedAtoms ++ pick s1.atoms.rows idx,
-                                                 delta := c.delta - 1 },
-                                 atoms := s1.atoms.delete idx } r)
+  let (isAdd, s0) := exchDecide r s
+  if isAdd then exchAdd r s0 else exchDel r s0
 
 /-! ## `CellMove`, `HamiltonianDisplacementMove`, user moves -/
 
@@ -394,11 +409,7 @@ def compExchAddLoop : List Nat → Bool → State → Bool × State
     let (idx, s1) := attemptAddition r s
     let (ok1, s2) :=
       if idx.isEmpty then (ok, s1)
-      else
-        let c := s1.ctx
-        (true, { s1 with ctx := { c with addedIdx := c.addedIdx ++ idx,
-                                          addedAtoms := c.addedAtoms ++ pick s1.atoms.rows idx,
-                                          delta := c.delta + 1 } })
+      else (true, { s1 with ctx := recordAdded s1.ctx idx s1.atoms.rows })
     compExchAddLoop rs ok1 (s2.setObj r { s2.obj r with toAdd := none })
 
 def compExchDelLoop : List Nat → List Int → List Nat → State → List Int × List Nat × State
